@@ -7,7 +7,7 @@
 #   3. demo with the patch         -> must fail
 # Prints one line per step; writes meta.json (without the check results, which sens.sh --seeded adds).
 set -u
-SRC="$1/SEED_OUT"; NAME="$2"; PROP="$3"
+SUB="${4:-}"; SRC="$1/SEED_OUT${SUB:+/$SUB}"; NAME="$2"; PROP="$3"
 DEST=/verif/seeded/$NAME
 W=/tmp/vw-confirm; TT=/tmp/vw-confirm-target
 [ -f "$SRC/patch.diff" ] || { echo "no patch.diff in $SRC"; exit 2; }
@@ -15,7 +15,17 @@ mkdir -p "$DEST"; rm -rf "$DEST/demo"; cp -r "$SRC/patch.diff" "$SRC/demo" "$DES
 git -C /repo worktree remove --force "$W" >/dev/null 2>&1; rm -rf "$W"; git -C /repo worktree prune
 git -C /repo worktree add --detach "$W" HEAD >/dev/null 2>&1 || { echo "cannot create worktree"; exit 2; }
 export CARGO_NET_OFFLINE=true; [ -z "${LOCAL_TARGET:-}" ] && export CARGO_TARGET_DIR="$TT"
-rundemo() { mkdir -p "$W/SEED_OUT" "$W/vaporetto/tests" "$W/predict/tests" "$W/evaluate/tests" "$W/vaporetto_rules/tests"; rm -rf "$W/SEED_OUT/demo"; cp -r "$DEST/demo" "$W/SEED_OUT/demo"; sed -i "s#$1#$W#g" "$W/SEED_OUT/demo/"*.sh 2>/dev/null; ( cd "$W" && bash SEED_OUT/demo/run.sh ) > "$DEST/.demo.log" 2>&1; }
+rundemo() {
+  mkdir -p "$W/vaporetto/tests" "$W/predict/tests" "$W/evaluate/tests" "$W/vaporetto_rules/tests"
+  if [ -n "$SUB" ]; then
+    # self-contained layout: run.sh finds its files through dirname "$0", cwd = worktree root
+    rm -rf "$W/SEED_DEMO"; cp -r "$DEST/demo" "$W/SEED_DEMO"
+    ( cd "$W" && bash SEED_DEMO/run.sh ) > "$DEST/.demo.log" 2>&1
+  else
+    mkdir -p "$W/SEED_OUT"; rm -rf "$W/SEED_OUT/demo"; cp -r "$DEST/demo" "$W/SEED_OUT/demo"; sed -i "s#$1#$W#g" "$W/SEED_OUT/demo/"*.sh 2>/dev/null
+    ( cd "$W" && bash SEED_OUT/demo/run.sh ) > "$DEST/.demo.log" 2>&1
+  fi
+}
 rundemo "$1"; rc_orig=$?
 echo "demo on original code: exit=$rc_orig (want 0)"
 if ! git -C "$W" apply "$DEST/patch.diff"; then echo "PATCH DOES NOT APPLY"; exit 1; fi
